@@ -2310,8 +2310,21 @@ func (c *Conn) handleIncomingPacket(
 		return outcome, nil
 	}
 
+	// The peer protects everything it sends since we accepted its change of
+	// epoch. Whatever is wrong with an unprotected record after that point is
+	// not the peer's doing: it is dropped, not answered with an alert, or
+	// anyone who can reach the socket could make this side alert its peer and
+	// close the session.
+	unprotectedLate := prepared.header.Epoch == 0 && dtlsstate.CommonState(c.state).RemoteEpoch() != 0
+
 	r := &recordlayer.RecordLayer{}
 	if err := r.Unmarshal(prepared.buf); err != nil {
+		if unprotectedLate {
+			c.log.Debugf("discarded undecodable unprotected record: %v", err)
+
+			return packetOutcome{}, nil
+		}
+
 		return packetOutcome{
 			responseAlert: &alert.Alert{Level: alert.Fatal, Description: alert.DecodeError},
 		}, err
@@ -2319,6 +2332,12 @@ func (c *Conn) handleIncomingPacket(
 
 	isLatestSeqNum, outcome, err := c.handleRecordContent(ctx, r.Content, prepared, rAddr, bufferLease)
 	if err != nil || outcome.responseAlert != nil {
+		if unprotectedLate {
+			c.log.Debugf("discarded unprotected record: %v", err)
+
+			return packetOutcome{}, nil
+		}
+
 		return outcome, err
 	}
 
